@@ -6,7 +6,7 @@ Init == l = 1 /\ cnt = [events |-> 0, nontrivial |-> 0, gnum |-> 0, grt |-> 0, g
 Failed(e) == CASE e.ev = "gnum" -> GnumFailed(e) [] e.ev = "grt" -> GrtFailed(e) [] e.ev = "ginto" -> GintoFailed(e)
 Next == /\ l <= Len(Trace)
         /\ LET e == Trace[l] IN
-           /\ \A x \in Failed(e) : PrintT(<<"VIOL", l, x>>)
+           /\ \A x \in Failed(e) \cup Reread(e) : PrintT(<<"VIOL", l, x>>)
            /\ cnt' = [cnt EXCEPT !.events = @ + 1, ![e.ev] = @ + 1,
                                  !.nontrivial = @ + (IF (e.ev = "gnum" /\ e.r.ok) \/ (e.ev = "grt" /\ e.back.ok) \/ (e.ev = "ginto" /\ e.r.ok) THEN 1 ELSE 0)]
         /\ l' = l + 1
